@@ -105,6 +105,7 @@ fn trace_one(case: &Value, ranges: &[(u64, u64)]) -> Result<(u64, u64, String), 
             return Err("child did not stop".into());
         }
         let mut steps: u64 = 0;
+        let image_base: u64 = ranges.iter().map(|r| r.0).min().unwrap_or(0);
         let mut digest: u64 = 0xcbf29ce484222325;
         let mut regs: libc::user_regs_struct = std::mem::zeroed();
         let mut total: u64 = 0;
@@ -137,7 +138,9 @@ fn trace_one(case: &Value, ranges: &[(u64, u64)]) -> Result<(u64, u64, String), 
             let rip = regs.rip;
             if ranges.iter().any(|(a, b)| rip >= *a && rip < *b) {
                 steps += 1;
-                digest = (digest ^ rip).wrapping_mul(0x100000001b3);
+                // offsets from the image base, not absolute addresses: tracer processes are separate executions of a
+                // position-independent executable and are loaded at different addresses
+                digest = (digest ^ (rip - image_base)).wrapping_mul(0x100000001b3);
             }
         }
     }
